@@ -1,1 +1,2 @@
+pub mod kv;
 pub mod time;
